@@ -67,4 +67,137 @@ theorem target_base_inj (l : Lat) (hne : l.Ls ≠ []) (hbc : l.bc.length = l.Ls.
     have := mul_small hL hd (by omega) (by omega)
     rw [this] at hd; omega
 
+
+/-- the box of `multi_coupling_shape` lies inside the lattice of unit cells -/
+theorem box_sub_grid (l : Lat) (dxs : List (List Int)) (hdne : dxs ≠ []) (li : List Int)
+    (h : InGrid ((multiCouplingShape l dxs).1.map Int.toNat) li) : InGrid l.Ls li := by
+  obtain ⟨hsl, _⟩ := multiCouplingShape_lengths l dxs
+  rw [inGrid_iff_getD] at h ⊢
+  obtain ⟨h1, h2⟩ := h
+  rw [List.length_map, hsl] at h1 h2
+  refine ⟨h1, fun a ha => ?_⟩
+  obtain ⟨p1, p2⟩ := h2 a ha
+  refine ⟨p1, ?_⟩
+  have e1 : ((multiCouplingShape l dxs).1.map Int.toNat).getD a 0 = ((multiCouplingShape l dxs).1.getD a 0).toNat := by
+    rw [List.getD_eq_getElem?_getD, List.getD_eq_getElem?_getD, List.getElem?_map]
+    cases (multiCouplingShape l dxs).1[a]? <;> simp
+  rw [e1, mcs_shape_getD l dxs a ha] at p2
+  obtain ⟨d, hd, _⟩ := (colMin_spec dxs hdne a).2
+  have m1 := (colMin_spec dxs hdne a).1 d hd
+  have m2 := (colMax_spec dxs hdne a).1 d hd
+  split at p2
+  · simp only [Int.mul_one] at p2; omega
+  · simp only [Int.mul_zero, Int.sub_zero] at p2; omega
+
+/-- equal normalised rows: the raw indices differ by a common multiple of `N` (not at all for finite MPS) -/
+theorem normalizeRow_head (l : Lat) (r r' : Int) (rs rs' : List Int)
+    (h : normalizeRow l (r :: rs) = normalizeRow l (r' :: rs')) :
+    ∃ t : Int, r' = r + t * (if l.finite then 0 else (l.nSites : Int)) := by
+  unfold normalizeRow at h
+  cases hf : l.finite with
+  | true =>
+    simp only [hf, if_true] at h
+    exact ⟨0, by have := (List.cons.inj h).1; omega⟩
+  | false =>
+    simp only [hf, Bool.false_eq_true, if_false, List.map_cons] at h
+    have h0 := (List.cons.inj h).1
+    generalize (r :: rs).foldl min ((r :: rs).headD 0) = m at h0
+    generalize (r' :: rs').foldl min ((r' :: rs').headD 0) = m' at h0
+    refine ⟨m' / (l.nSites : Int) - m / (l.nSites : Int), ?_⟩
+    have e1 := Int.emod_def m (l.nSites : Int)
+    have e2 := Int.emod_def m' (l.nSites : Int)
+    rw [Int.sub_mul, Int.mul_comm (m' / _), Int.mul_comm (m / _)]
+    simp only [Bool.false_eq_true, if_false]
+    omega
+
+namespace CoupOK
+variable {l : Lat} (ok : CoupOK l)
+include ok
+
+omit ok in
+theorem siteAt_cell_unique {j : Int} {y y' : List Int} {u : Nat} (h1 : SiteAt l j y u) (h2 : SiteAt l j y' u) :
+    y = y' := by
+  obtain ⟨k, rfl, hk, hrow⟩ := h1
+  obtain ⟨k', e, hk', hrow'⟩ := h2
+  have : k = k' := by omega
+  subst this
+  have := hrow.symm.trans hrow'
+  exact List.append_cancel_right this
+
+/-- distinct box positions give distinct rows -/
+theorem multiAt_inj (ops : List (List Int × Nat)) (hops : ∀ op ∈ ops, op.1.length = l.Ls.length ∧ op.2 < l.Lu)
+    (hone : ops ≠ []) (li li' m : List Int)
+    (h1 : InGrid ((multiCouplingShape l (ops.map (·.1))).1.map Int.toNat) li)
+    (h2 : InGrid ((multiCouplingShape l (ops.map (·.1))).1.map Int.toNat) li')
+    (e1 : multiAt l ops (multiCouplingShape l (ops.map (·.1))).2 li = some m)
+    (e2 : multiAt l ops (multiCouplingShape l (ops.map (·.1))).2 li' = some m) : li = li' := by
+  have hdne : ops.map (·.1) ≠ [] := by simpa using hone
+  have g1 := box_sub_grid l _ hdne li h1
+  have g2 := box_sub_grid l _ hdne li' h2
+  obtain ⟨hsl, hml⟩ := multiCouplingShape_lengths l (ops.map (·.1))
+  generalize (multiCouplingShape l (ops.map (·.1))).2 = mins at *
+  obtain ⟨raws, f1, rfl⟩ := (ok.multiAt_spec ops mins li hops hml (inGrid_length g1) m).1 e1
+  obtain ⟨raws', f2, hm⟩ := (ok.multiAt_spec ops mins li' hops hml (inGrid_length g2) _).1 e2
+  cases f1 with
+  | nil => exact absurd rfl hone
+  | @cons op r ops' rs hop _ =>
+    cases f2 with
+    | @cons _ r' _ rs' hop' _ =>
+      obtain ⟨t, ht⟩ := normalizeRow_head l r r' rs rs' hm
+      obtain ⟨y, k0, j0, t1, s1, rfl⟩ := hop
+      obtain ⟨y', k0', j0', t2, s2, rfl⟩ := hop'
+      have hN := ok.toLatOK.nsites_pos
+      obtain ⟨a0, a1⟩ := ok.siteAt_range s1
+      obtain ⟨b0, b1⟩ := ok.siteAt_range s2
+      have hj : j0 = j0' := by
+        cases hf : l.finite with
+        | true => simp only [hf, if_true, Int.mul_zero, Int.add_zero] at ht; exact ht.symm
+        | false =>
+          simp only [hf, Bool.false_eq_true, if_false] at ht
+          have hd : j0' - j0 = (t + k0 - k0') * (l.nSites : Int) := by
+            rw [Int.sub_mul, Int.add_mul]; omega
+          have := mul_small hN hd (by omega) (by omega)
+          rw [this] at hd; omega
+      subst hj
+      have hy := CoupOK.siteAt_cell_unique s1 s2
+      subst hy
+      have hel := (hops op (by simp)).1
+      exact target_base_inj l ok.lsne ok.bclen ok.lpos li li' (vsub op.1 mins) y k0 k0'
+        (by rw [vsub_length _ _ (by rw [hel, hml])]; exact hel) g1 g2 t1 t2
+
+end CoupOK
+
+theorem multi_rows_fst (l : Lat) (ops : List (List Int × Nat)) :
+    (possibleMultiCouplings l ops).rows.map (·.1) =
+      if (multiCouplingShape l (ops.map (·.1))).1.any (· == 0) then []
+      else if (multiCouplingShape l (ops.map (·.1))).1.any (· < 0) then []
+      else (castRows (cstyle ((multiCouplingShape l (ops.map (·.1))).1.map Int.toNat))).filterMap
+        (multiAt l ops (multiCouplingShape l (ops.map (·.1))).2) := by
+  unfold possibleMultiCouplings
+  simp only
+  split
+  · rfl
+  · split
+    · rfl
+    · simp only [List.map_filterMap, Option.map_map]
+      congr 1
+      funext li
+      cases multiAt l ops (multiCouplingShape l (ops.map (·.1))).2 li <;> rfl
+
+/-- **Uniqueness**: no row of MPS indices is returned twice. -/
+theorem multi_nodup (l : Lat) (ok : CoupOK l) (ops : List (List Int × Nat))
+    (hops : ∀ op ∈ ops, op.1.length = l.Ls.length ∧ op.2 < l.Lu) (hone : ops ≠ []) :
+    ((possibleMultiCouplings l ops).rows.map (·.1)).Nodup := by
+  rw [multi_rows_fst]
+  split
+  · exact List.nodup_nil
+  · split
+    · exact List.nodup_nil
+    · rw [List.nodup_iff_pairwise_ne]
+      have hnd := castRows_cstyle_nodup ((multiCouplingShape l (ops.map (·.1))).1.map Int.toNat)
+      rw [List.nodup_iff_pairwise_ne] at hnd
+      refine List.Pairwise.filterMap _ ?_ (List.Pairwise.and_mem.1 hnd)
+      rintro a a' ⟨ha, ha', hne⟩ b hb b' hb' rfl
+      exact hne (ok.multiAt_inj ops hops hone a a' b (mem_castRows_cstyle.1 ha) (mem_castRows_cstyle.1 ha') hb hb')
+
 end TenpyModel.C19
